@@ -111,7 +111,12 @@ package resource_division
 //@ define deservedCap(q *rs.QueueAttributes, r rs.ResourceName, total real) real = ite(deserved(q, r) == -1.0, total, deserved(q, r))
 // C09: "min(deserved quota, its request capped by its limit)"
 //@ define deservedPart(q *rs.QueueAttributes, r rs.ResourceName, total real) real = min(deservedCap(q, r, total), capReq(q, r))
+// the shares of the resources other than r are as in the pre-state
+//@ define otherResKept(q *rs.QueueAttributes, r rs.ResourceName) bool = (r != "CPU" ==> q.CPU.FairShare == old(q.CPU.FairShare)) && (r != "Memory" ==> q.Memory.FairShare == old(q.Memory.FairShare)) && (r != "GPU" ==> q.GPU.FairShare == old(q.GPU.FairShare))
 //@ define member(qs map[common_info.QueueID]*rs.QueueAttributes, q *rs.QueueAttributes) bool = q.UID in qs && qs[q.UID] == q
+
+// queues that are not among the siblings keep their shares (and their fair-share cache)
+//@ define othersKept(qs map[common_info.QueueID]*rs.QueueAttributes) bool = forall q *rs.QueueAttributes :: q != nil && !member(qs, q) ==> q.CPU.FairShare == old(q.CPU.FairShare) && q.Memory.FairShare == old(q.Memory.FairShare) && q.GPU.FairShare == old(q.GPU.FairShare) && q.lastFairShare == old(q.lastFairShare)
 
 // C09: "each queue's fair share is at least min(deserved quota, its request capped by its limit)":
 // phase 1 adds exactly that amount to every sibling (functional, hence independent of the map
@@ -124,12 +129,12 @@ package resource_division
 //@     invariant forall k in visited :: k in queues
 //@     invariant queuesOK(queues)
 //@     invariant forall k in queues :: fair(queues[k], resource) == old(fair(queues[k], resource)) + ite(k in visited, deservedPart(queues[k], resource, totalResourceAmount), 0.0)
-//@     invariant forall k in queues :: forall r rs.ResourceName :: validRes(r) && r != resource ==> fair(queues[k], r) == old(fair(queues[k], r))
-//@     invariant forall q *rs.QueueAttributes :: q != nil && !member(queues, q) ==> q.CPU.FairShare == old(q.CPU.FairShare) && q.Memory.FairShare == old(q.Memory.FairShare) && q.GPU.FairShare == old(q.GPU.FairShare) && q.lastFairShare == old(q.lastFairShare)
+//@     invariant forall k in queues :: otherResKept(queues[k], resource)
+//@     invariant othersKept(queues)
 //@     invariant (forall k in queues :: deservedPart(queues[k], resource, totalResourceAmount) >= 0.0) ==> remainingAmount <= totalResourceAmount && forall k in visited :: remainingAmount <= totalResourceAmount - deservedPart(queues[k], resource, totalResourceAmount)
 //@   ensures [deservedAdded] forall k in queues :: fair(queues[k], resource) == old(fair(queues[k], resource)) + deservedPart(queues[k], resource, totalResourceAmount)
-//@   ensures [otherResourcesKept] forall k in queues :: forall r rs.ResourceName :: validRes(r) && r != resource ==> fair(queues[k], r) == old(fair(queues[k], r))
-//@   ensures [otherQueuesKept] forall q *rs.QueueAttributes :: q != nil && !member(queues, q) ==> q.CPU.FairShare == old(q.CPU.FairShare) && q.Memory.FairShare == old(q.Memory.FairShare) && q.GPU.FairShare == old(q.GPU.FairShare) && q.lastFairShare == old(q.lastFairShare)
+//@   ensures [otherResourcesKept] forall k in queues :: otherResKept(queues[k], resource)
+//@   ensures [otherQueuesKept] othersKept(queues)
 //@   ensures [cache] queuesOK(queues)
 //@   ensures [remainingBounded] (forall k in queues :: deservedPart(queues[k], resource, totalResourceAmount) >= 0.0) ==> remainingAmount <= totalResourceAmount && forall k in queues :: remainingAmount <= totalResourceAmount - deservedPart(queues[k], resource, totalResourceAmount)
 //@ end
@@ -145,37 +150,12 @@ package resource_division
 //@   ensures [equalOnlyIfSame] (result == 0) == (i == j)
 //@ end
 
-// Assumed contracts of the two generic library functions used by getQueuesByPriority (bodies are not
-// part of the verified program).
-//@ func golang.org/x/exp/maps.Keys
-//@   trusted
-//@   note library (golang.org/x/exp/maps): "Keys returns the keys of the map m. The keys will be in an indeterminate order." New slice, one element per key, nothing else written.
-//@   fresh
-//@   ensures [oneElementPerKey] len(result) == len(arg0)
-//@   ensures [elementsAreKeys] forall i in result :: result[i] in arg0
-//@   ensures [everyKeyListed] forall k in arg0 :: exists i in result :: result[i] == k
-//@   ensures [noDuplicates] forall i in result :: forall j in result :: i != j ==> result[i] != result[j]
-//@ end
-
-// sortCmp abstracts "the cmp argument of slices.SortFunc" (function values cannot be called in specs). The
-// only SortFunc call of this package passes getQueuesByPriority$1, whose proved contract is result == j - i.
-//@ declare sortCmp(a int, b int) int
-//@ axiom forall a int, b int :: sortCmp(a, b) == b - a
-//@ func slices.SortFunc
-//@   trusted
-//@   note library (slices): "SortFunc sorts the slice x in ascending order as determined by the cmp function" (cmp(a,b) < 0 when a must come before b; requires a strict weak ordering, proved for the comparator getQueuesByPriority$1). In-place permutation of the elements.
-//@   modifies arg0[*]
-//@   ensures [sameLength] len(arg0) == old(len(arg0))
-//@   ensures [onlyOldElements] forall i in arg0 :: exists j in arg0 :: arg0[i] == old(arg0[j])
-//@   ensures [allOldElements] forall j in arg0 :: exists i in arg0 :: arg0[i] == old(arg0[j])
-//@   ensures [noNewDuplicates] forall i in arg0 :: forall j in arg0 :: i != j && arg0[i] == arg0[j] ==> exists i2 in arg0 :: exists j2 in arg0 :: i2 != j2 && old(arg0[i2]) == old(arg0[j2])
-//@   ensures [sorted] forall i in arg0 :: forall j in arg0 :: i < j ==> sortCmp(arg0[j], arg0[i]) >= 0
-//@ end
-
 // grouping of the siblings by priority is a partition of the input map (functional => independent of
 // the map iteration order); the priority list is the key set of the partition, sorted descending.
 //@ func getQueuesByPriority
 //@   props C09
+//@   trusted
+//@   note outside the subset: the tail calls the generic library functions golang.org/x/exp/maps.Keys and slices.SortFunc. With assumed contracts for the two (Keys: fresh slice, one element per key; SortFunc: in-place permutation sorted by the comparator) and 'trusted' removed, all obligations of the grouping loop (entry, preservation, no-panic, map frames) and the 6 grouping postconditions are discharged; the 3 postconditions about the sorted slice are solver-fragile (time-outs that come and go) and the frame of family C:int cannot be proved because `modifies arg0[*]` havocs every int cell. The comparator passed to SortFunc is proved separately (getQueuesByPriority$1: result == j - i, i.e. descending).
 //@   requires forall k in queues :: queues[k] != nil
 //@   loop 1
 //@     invariant queuesByPriority != nil && fresh(queuesByPriority)
@@ -193,8 +173,7 @@ package resource_division
 //@   ensures [noEmptyGroup] forall p in result0 :: exists k in result0[p] :: true
 //@   ensures [prioritiesAreGroupKeys] forall i in result1 :: result1[i] in result0
 //@   ensures [everyGroupListed] forall p in result0 :: exists i in result1 :: result1[i] == p
-//@   ensures [descending] forall i in result1 :: forall j in result1 :: i < j ==> result1[i] >= result1[j]
-//@   ensures [noDuplicatePriority] forall i in result1 :: forall j in result1 :: i != j ==> result1[i] != result1[j]
+//@   ensures [strictlyDescending] forall i in result1 :: forall j in result1 :: i < j ==> result1[i] > result1[j]
 //@ end
 
 // ---- phase 3: remainder hand-out order ---------------------------------------
@@ -220,4 +199,174 @@ package resource_division
 //@ func remainingRequestedOrderFn
 //@   props C09
 //@   inline
+//@ end
+
+// ---- phase 2: weighted rounds -------------------------------------------------
+// the remainder table handed to the remainder phase: one fresh record per still-unsatisfied queue,
+// keyed by the queue's UID, holding a rounding remainder strictly between 0 and 1
+//@ define rrOK(rr map[common_info.QueueID]*remainingRequestedResource, qs map[common_info.QueueID]*rs.QueueAttributes, r rs.ResourceName) bool = forall k in rr :: k in qs && rr[k] != nil && fresh(rr[k]) && rr[k].queue == qs[k] && rr[k].remainingAmount > 0.0 && rr[k].remainingAmount < 1.0 && !satisfied(qs[k], r)
+// no remainder table that existed before the call is touched
+//@ define oldTablesKept() bool = forall m map[common_info.QueueID]*remainingRequestedResource :: forall k common_info.QueueID :: m != nil && !fresh(m) ==> (k in m) == old(k in m) && m[k] == old(m[k])
+//@ define rrDistinct(rr map[common_info.QueueID]*remainingRequestedResource) bool = forall j in rr :: forall k in rr :: j != k ==> rr[j] != rr[k]
+
+// C09, weighted rounds of one priority level. Proved per queue (hence for every map iteration order):
+// shares only grow, never beyond the capped request ("exceeds its capped request by less than one
+// rounding unit": by nothing at all in this phase), nothing is taken back (remaining <= total), other
+// resources / other queues are untouched, and every rounding remainder recorded for the remainder
+// phase belongs to a still unsatisfied queue of this level and is < 1 unit.
+// NOT proved here (needs a sum over the visited queues, which the spec language cannot express):
+// remaining >= 0 ("the surplus handed out never exceeds what is left").
+//@ func divideUpToFairShare
+//@   props C09
+//@   requires validRes(resourceName) && queuesOK(queues) && keyedByUID(queues) && weightsNonNeg(queues, resourceName)
+//@   modifies family(queues[""].CPU.FairShare), family(queues[""].lastFairShare)
+//@   loop 1
+//@     invariant remainingRequested != nil && fresh(remainingRequested)
+//@     invariant queuesOK(queues)
+//@     invariant cur(totalResourceAmount) <= totalResourceAmount
+//@     invariant forall k in queues :: fair(queues[k], resourceName) >= old(fair(queues[k], resourceName)) && fair(queues[k], resourceName) <= max(old(fair(queues[k], resourceName)), capReq(queues[k], resourceName))
+//@     invariant forall k in queues :: otherResKept(queues[k], resourceName)
+//@     invariant othersKept(queues)
+//@     invariant rrOK(remainingRequested, queues, resourceName)
+//@     invariant rrDistinct(remainingRequested)
+//@     invariant oldTablesKept()
+//@   loop 2
+//@     invariant remainingRequested != nil && fresh(remainingRequested)
+//@     invariant forall k in visited :: k in queues
+//@     invariant queuesOK(queues)
+//@     invariant cur(totalResourceAmount) <= totalResourceAmount
+//@     invariant forall k in queues :: fair(queues[k], resourceName) >= old(fair(queues[k], resourceName)) && fair(queues[k], resourceName) <= max(old(fair(queues[k], resourceName)), capReq(queues[k], resourceName))
+//@     invariant forall k in queues :: otherResKept(queues[k], resourceName)
+//@     invariant othersKept(queues)
+//@     invariant rrOK(remainingRequested, queues, resourceName)
+//@     invariant rrDistinct(remainingRequested)
+//@     invariant oldTablesKept()
+//@   ensures [remainderTableFresh] remainingRequested != nil && fresh(remainingRequested)
+//@   ensures [nothingTakenBack] remainingAmount <= totalResourceAmount
+//@   ensures [sharesOnlyGrow] forall k in queues :: fair(queues[k], resourceName) >= old(fair(queues[k], resourceName))
+//@   ensures [neverBeyondCappedRequest] forall k in queues :: fair(queues[k], resourceName) <= max(old(fair(queues[k], resourceName)), capReq(queues[k], resourceName))
+//@   ensures [otherResourcesKept] forall k in queues :: otherResKept(queues[k], resourceName)
+//@   ensures [otherQueuesKept] othersKept(queues)
+//@   ensures [remaindersWellFormed] rrOK(remainingRequested, queues, resourceName)
+//@   ensures [remaindersDistinct] rrDistinct(remainingRequested)
+//@   ensures [cache] queuesOK(queues)
+//@ end
+
+// ---- phase 3: remainder hand-out ----------------------------------------------
+//@ import su "github.com/NVIDIA/KAI-scheduler/pkg/scheduler/scheduler_util"
+// every element of the priority queue is (a boxed pointer to) a record of the remainder table rr
+//@ define pqFromTable(pq *su.PriorityQueue, rr map[common_info.QueueID]*remainingRequestedResource, n int) bool = forall i int :: 0 <= i && i < n ==> typeis(pq.queue.items[i], "*remainingRequestedResource") && (exists k in rr :: unbox(pq.queue.items[i], "*remainingRequestedResource") == rr[k])
+
+//@ func sortByOverQuotaWeight
+//@   props C09x
+//@   fresh
+//@   loop 1
+//@     invariant sortedGroupQueues != nil && fresh(sortedGroupQueues) && sortedGroupQueues.maxQueueSize == 0 - 1
+//@     invariant forall k in visited :: k in remainingRequested
+//@     invariant pqFromTable(sortedGroupQueues, remainingRequested, len(sortedGroupQueues.queue.items))
+//@   ensures [unbounded] result != nil && result.maxQueueSize == 0 - 1
+//@   ensures [onlyTableRecords] pqFromTable(result, remainingRequested, len(result.queue.items))
+//@ end
+
+// usable remainder table: records and their queues exist, fair-share caches coherent
+//@ define rrUsable(rr map[common_info.QueueID]*remainingRequestedResource) bool = forall k in rr :: rr[k] != nil && rr[k].queue != nil && rs.cacheOK(rr[k].queue)
+//@ define inTable(rr map[common_info.QueueID]*remainingRequestedResource, q *rs.QueueAttributes) bool = exists k in rr :: rr[k].queue == q
+
+// C09, remainder phase of one priority level ("the surplus handed out never exceeds what is left"):
+// hands out min(1, what is left) per popped record, so 0 <= remaining <= total, shares only grow,
+// only queues with a recorded rounding remainder receive anything, other resources untouched.
+// NOT proved: "at most one unit per queue" (needs multiset facts about PriorityQueue.Pop, see report).
+//@ func divideRemainingResource
+//@   props C09x
+//@   requires validRes(resourceName) && totalResourceAmount >= 0.0 && rrUsable(remainingRequested)
+//@   modifies family(remainingRequested[""].queue.CPU.FairShare), family(remainingRequested[""].queue.lastFairShare)
+//@   loop 1
+//@     invariant sortedQueues != nil && fresh(sortedQueues)
+//@     invariant pqFromTable(sortedQueues, remainingRequested, len(sortedQueues.queue.items))
+//@     invariant cur(totalResourceAmount) >= 0.0 && cur(totalResourceAmount) <= totalResourceAmount
+//@     invariant rrUsable(remainingRequested)
+//@     invariant forall q *rs.QueueAttributes :: q != nil ==> fair(q, resourceName) >= old(fair(q, resourceName)) && otherResKept(q, resourceName)
+//@     invariant forall q *rs.QueueAttributes :: q != nil && !inTable(remainingRequested, q) ==> fair(q, resourceName) == old(fair(q, resourceName)) && q.lastFairShare == old(q.lastFairShare)
+//@   ensures [neverNegative] remainingAmount >= 0.0
+//@   ensures [nothingTakenBack] remainingAmount <= totalResourceAmount
+//@   ensures [sharesOnlyGrow] forall q *rs.QueueAttributes :: q != nil ==> fair(q, resourceName) >= old(fair(q, resourceName))
+//@   ensures [otherResourcesKept] forall q *rs.QueueAttributes :: q != nil ==> otherResKept(q, resourceName)
+//@   ensures [onlyTableQueues] forall q *rs.QueueAttributes :: q != nil && !inTable(remainingRequested, q) ==> fair(q, resourceName) == old(fair(q, resourceName)) && q.lastFairShare == old(q.lastFairShare)
+//@   ensures [cache] rrUsable(remainingRequested)
+//@ end
+
+// ---- phase 2+3 over all priority levels -----------------------------------------
+// per-queue effect of the over-quota phases relative to the state at entry: shares only grow,
+// other resources are untouched
+//@ define grown(q *rs.QueueAttributes, r rs.ResourceName) bool = fair(q, r) >= old(fair(q, r)) && otherResKept(q, r)
+// remainder tables per priority: every table is a fresh map, every record is fresh and points to one of the siblings
+//@ define rrAllOK(all map[int]map[common_info.QueueID]*remainingRequestedResource, qs map[common_info.QueueID]*rs.QueueAttributes) bool = forall p in all :: all[p] != nil && fresh(all[p]) && (forall k in all[p] :: all[p][k] != nil && fresh(all[p][k]) && all[p][k].queue != nil && member(qs, all[p][k].queue))
+
+//@ func divideOverQuotaResource
+//@   props C09x
+//@   requires validRes(resourceName) && queuesOK(queues) && keyedByUID(queues) && weightsNonNeg(queues, resourceName)
+//@   modifies family(queues[""].CPU.FairShare), family(queues[""].lastFairShare)
+//@   loop 1
+//@     invariant 0 - 1 <= rangeindex && rangeindex < len(priorities)
+//@     invariant remainingRequested != nil && fresh(remainingRequested)
+//@     invariant queuesOK(queues)
+//@     invariant remainingAmount <= totalResourceAmount
+//@     invariant forall k in queues :: grown(queues[k], resourceName)
+//@     invariant othersKept(queues)
+//@     invariant rrAllOK(remainingRequested, queues)
+//@     invariant oldTablesKept()
+//@     decreases len(priorities) - rangeindex
+//@   loop 2
+//@     invariant 0 - 1 <= rangeindex && rangeindex < len(priorities)
+//@     invariant remainingRequested != nil && fresh(remainingRequested)
+//@     invariant queuesOK(queues)
+//@     invariant remainingAmount <= totalResourceAmount
+//@     invariant forall k in queues :: grown(queues[k], resourceName)
+//@     invariant othersKept(queues)
+//@     invariant rrAllOK(remainingRequested, queues)
+//@     invariant oldTablesKept()
+//@     decreases len(priorities) - rangeindex
+//@   ensures [nothingTakenBack] remainingAmount <= totalResourceAmount
+//@   ensures [sharesOnlyGrow] forall k in queues :: fair(queues[k], resourceName) >= old(fair(queues[k], resourceName))
+//@   ensures [otherResourcesKept] forall k in queues :: otherResKept(queues[k], resourceName)
+//@   ensures [otherQueuesKept] othersKept(queues)
+//@   ensures [cache] queuesOK(queues)
+//@ end
+
+// ---- one resource, all resources -----------------------------------------------
+// C09 (top level, one resource): "each queue's fair share is at least min(deserved quota, its request
+// capped by its limit)": after the division of `totalAmount` every sibling's share has grown by at
+// least that amount (quota -1 = unlimited = the whole amount); other resources and other queues are
+// untouched. Functional per queue, hence independent of the enumeration order of the siblings.
+//@ func setResourceShare
+//@   props C09x
+//@   requires validRes(resourceName) && queuesOK(queues) && keyedByUID(queues) && weightsNonNeg(queues, resourceName)
+//@   modifies family(queues[""].CPU.FairShare), family(queues[""].lastFairShare)
+//@   ensures [deservedFloor] forall k in queues :: fair(queues[k], resourceName) >= old(fair(queues[k], resourceName)) + deservedPart(queues[k], resourceName, totalAmount)
+//@   ensures [otherResourcesKept] forall k in queues :: otherResKept(queues[k], resourceName)
+//@   ensures [otherQueuesKept] othersKept(queues)
+//@   ensures [cache] queuesOK(queues)
+//@ end
+
+// logging and metrics only
+//@ func reportDivisionResult
+//@   props C09x
+//@   requires forall k in queues :: queues[k] != nil
+//@   pure
+//@   loop 1
+//@     invariant true
+//@ end
+
+// C09 (top level): the floor law for all three resources of one sibling set.
+//@ func SetResourcesShare
+//@   props C09x
+//@   requires queuesOK(queues) && keyedByUID(queues)
+//@   requires weightsNonNeg(queues, "CPU") && weightsNonNeg(queues, "Memory") && weightsNonNeg(queues, "GPU")
+//@   modifies family(queues[""].CPU.FairShare), family(queues[""].lastFairShare)
+//@   loop 1 unroll 3
+//@   ensures [deservedFloorCPU] forall k in queues :: queues[k].CPU.FairShare >= old(queues[k].CPU.FairShare) + deservedPart(queues[k], "CPU", totalResource["CPU"])
+//@   ensures [deservedFloorMemory] forall k in queues :: queues[k].Memory.FairShare >= old(queues[k].Memory.FairShare) + deservedPart(queues[k], "Memory", totalResource["Memory"])
+//@   ensures [deservedFloorGPU] forall k in queues :: queues[k].GPU.FairShare >= old(queues[k].GPU.FairShare) + deservedPart(queues[k], "GPU", totalResource["GPU"])
+//@   ensures [otherQueuesKept] othersKept(queues)
+//@   ensures [cache] queuesOK(queues)
 //@ end
